@@ -435,6 +435,14 @@ func (g *Gen) applyFuncSpecWith(st *State, fs *FuncSpec, fn *ssa.Function, args 
 		what: "call " + fs.Name, binds: binds, requires: fs.Requires, ensures: ens, mod: fs.Modifies, pure: pure, havocAll: havoc,
 		rt: rt, resultNames: rn, clausePrefix: "call " + fs.Name + " ", calleeGhosts: fs.Ghosts, mutGhosts: mut, preserves: fs.Preserves,
 	}
+	if extra != nil && fs.Modifies == nil && !fs.Pure && len(fs.Preserves) == 0 && (extra.Pure || extra.Modifies != nil || len(extra.Preserves) > 0) {
+		// the callee's own contract says nothing about its frame: the call-site clause's frame is used (an assumption, listed)
+		app.pure, app.mod, app.preserves = extra.Pure, extra.Modifies, extra.Preserves
+		app.havocAll = !extra.Pure && extra.Modifies == nil
+		if !g.discovery {
+			g.trustedUsed["frame of "+fs.Name+" assumed at a call site (its own contract has none)"] = true
+		}
+	}
 	if extra != nil {
 		// positional names of the clause are additional aliases for the explicit arguments
 		explicit := args
